@@ -186,7 +186,13 @@ void ds_ev(int kind, long a, long b)
 	e->thr = self ? self->id : -1; e->kind = kind; e->a = a; e->b = b; e->step = ds_step;
 	if (trace) fprintf(stderr, "[%6lu E%d] ev kind=%d a=%ld b=%ld\n", ds_step, e->thr, kind, a, b);
 }
-void ds_op_begin(int i) { if (self) { self->cur_op = i; self->op_pts = 0; } }
+int ds_i_am_solo(void);
+void ds_op_begin(int i)
+{
+	/* C17: when the solo thread has run its whole program the case is over (thread exit paths may legitimately block on suspended threads) */
+	if (i == -1 && ds_i_am_solo()) { in_rt = 1; die("ok", "solo thread finished its program"); }
+	if (self) { self->cur_op = i; self->op_pts = 0; }
+}
 void *ds_raw_alloc(size_t n) { return __real_calloc(1, n); }
 
 /* ---- shadow heap ---- */
@@ -316,9 +322,16 @@ static void switch_to(int next)
 	fwake(&T[next].baton);
 	fwait(&me->baton);
 }
+static void do_freeze(struct thr *me);
+static int solo_at_gate(void)
+{
+	for (int i = 0; i < nT; i++) if (!T[i].daemon && T[i].scen_idx == freeze_solo) return T[i].state == ST_BLOCK && T[i].bkind == BK_GATE;
+	return 0;
+}
 static void resched(void)
 {
 	int next = pick();
+	if (next < 0 && freeze_solo >= 0 && !solo_on && solo_at_gate()) { do_freeze(self); next = pick(); }
 	if (next < 0) {
 		sb_drain_all();
 		next = pick();
@@ -375,7 +388,7 @@ static void sched_point(void)
 		for (int i = 0; i < nT; i++) if (T[i].state == ST_RUN) cand[nc++] = i;
 		if (nc) T[cand[xs(&rw_rng) % nc]].prio = ++max_prio;
 	}
-	if (freeze_solo >= 0 && !solo_on && ds_step >= freeze_step) do_freeze(me);
+	if (freeze_solo >= 0 && !solo_on && ds_step >= freeze_step && solo_at_gate()) do_freeze(me);
 	resched();
 	in_rt = 0;
 	if (nsig) raise_signals(me);
@@ -389,7 +402,7 @@ static void yield_hint(void)
 	check_progress();
 	sb_drain(me);	/* a flush is always permitted; keeps a held store from looking like a lost wake-up */
 	if (solo_on && me->scen_idx == freeze_solo && !me->daemon) solo_yields++;
-	if (freeze_solo >= 0 && !solo_on && ds_step >= freeze_step) do_freeze(me);
+	if (freeze_solo >= 0 && !solo_on && ds_step >= freeze_step && solo_at_gate()) do_freeze(me);
 	me->prio = --min_prio;
 	resched();
 	in_rt = 0;
@@ -397,6 +410,17 @@ static void yield_hint(void)
 void ds_yield(void) { yield_hint(); }
 void urcu_verif_cpu_relax(void) { yield_hint(); }
 int ds_solo_active(void) { return solo_on; }
+static unsigned long solo_s0, solo_y0;
+int ds_i_am_solo(void) { return solo_on && self && !self->daemon && self->scen_idx == freeze_solo && (flags >> DSF_GATE_PASSED & 1); }
+void ds_solo_op_begin(void) { if (self) { solo_s0 = self->lsteps; solo_y0 = solo_yields; } }
+void ds_solo_op_end(const char *what, long bound)
+{
+	if (!ds_i_am_solo()) return;
+	unsigned long st = self->lsteps - solo_s0, y = solo_yields - solo_y0;
+	flags |= 1ull << DSF_SOLO_OP_DONE;
+	if (y) ds_fail("progress: %s, run solo with every other thread suspended, reached a wait hint (cpu_relax/poll/futex/contended mutex) %lu times", what, y);
+	if (bound > 0 && st > (unsigned long)bound) ds_fail("progress: %s, run solo with every other thread suspended, took %lu of its own steps (bound %ld)", what, st, bound);
+}
 int ds_sb_pending(void) { return self ? self->sbn : 0; }
 /* first step >= `step` at which engine thread `tid`'s store buffer was empty again (~0ul: not observed / log wrapped) */
 unsigned long ds_sb_empty_after(int tid, unsigned long step)
@@ -428,10 +452,11 @@ void ds_solo_gate(void)
 {
 	struct thr *me = self;
 	if (!active || !me) return;
-	if (solo_on) return;
+	if (solo_on) { flags |= 1ull << DSF_GATE_PASSED; return; }
 	in_rt = 1;
 	if (freeze_solo < 0) { in_rt = 0; return; }
 	block_on(BK_GATE, NULL);
+	flags |= 1ull << DSF_GATE_PASSED;
 	in_rt = 0;
 }
 
@@ -748,11 +773,13 @@ static void thread_finish(struct thr *me)
 {
 	in_rt = 1;
 	sb_drain(me);
+	if (solo_on && !me->daemon && me->scen_idx == freeze_solo) die("ok", "solo thread finished");
 	me->state = ST_FIN;
 	last_progress_step = ds_step;
 	wake_blocked(BK_JOIN, me, MAXT);
 	int next = pick();
 	if (next < 0) { sb_drain_all(); next = pick(); }
+	if (next < 0 && freeze_solo >= 0 && !solo_on && solo_at_gate()) { do_freeze(me); next = pick(); }
 	if (next < 0) {
 		if (scen_unfinished()) { char b[600]; describe_threads(b, sizeof b); die(solo_on ? "solo_block" : "deadlock", "at thread exit: %s", b); }
 		return;
